@@ -66,6 +66,14 @@ Fixpoint owed (from_i : bool) (l : list sop) (tr : list tstep) (k lastd : nat) :
         if negb from_i && (Nat.ltb k lastd) && ret_true (st_events (snd st)) then
           match sent_seq (ms_type m) (st_events (snd st)) with Some q => [(ms_type m, q, k)] | None => [] end
         else []
+      | SOverI _ m =>
+        if from_i && (Nat.ltb k lastd) && ret_true (st_events (fst st)) then
+          match sent_seq (ms_type m) (st_events (fst st)) with Some q => [(ms_type m, q, k)] | None => [] end
+        else []
+      | SOverA _ m =>
+        if negb from_i && (Nat.ltb k lastd) && ret_true (st_events (snd st)) then
+          match sent_seq (ms_type m) (st_events (snd st)) with Some q => [(ms_type m, q, k)] | None => [] end
+        else []
       | _ => []
       end in
     (here ++ owed from_i l' tr' (S k) lastd)%list
@@ -110,7 +118,7 @@ Fixpoint established (l : list sop) (tr : list tstep) : bool :=
 Fixpoint sched_valid (l : list sop) (tr : list tstep) (prev : step) : bool :=
   match l, tr with
   | o :: l', st :: tr' =>
-    match o with SSendA _ _ => negb (state_is prev 3) | _ => true end && sched_valid l' tr' (snd st)
+    match o with SSendA _ _ => negb (state_is prev 3) | SOverA _ _ => negb (state_is prev 3) | _ => true end && sched_valid l' tr' (snd st)
   | _, _ => true
   end.
 
